@@ -372,9 +372,17 @@ COMMENTS = ["", "# comment", "; 0000:  00000000", "IO drawer dump", "   ", "----
             "G0: not hex", "==== 0123 ====", "<end>"]
 
 
-def decorate(rng, lines, how):
-    """variations that must not change the bytes: comment / blank lines, CRLF, missing final newline"""
+HEXISH_TITLES = ["Date: 2024-01-01", "Dec 12 10:00:01 dump of drawer 2", "Add", "BEEF", "face off", "00 is the first byte"]
+
+
+def decorate(rng, lines, how, fmt=None):
+    """variations that must not change the bytes: comment / blank lines, CRLF, missing final newline; for the format with an
+    address column also title lines that begin with two hex digits (they are no data lines of that format, whatever the
+    other format would make of them)"""
     lines = list(lines)
+    if fmt == 1 and how in ("comments", "all") and lines:
+        for _ in range(rng.randrange(0, 3)):
+            lines.insert(rng.choice([0, 0, rng.randrange(len(lines) + 1)]), rng.choice(HEXISH_TITLES) + "\n")
     if how in ("comments", "all"):
         for _ in range(rng.randrange(1, 5)):
             lines.insert(rng.randrange(len(lines) + 1), rng.choice(COMMENTS) + "\n")
@@ -468,7 +476,7 @@ def check_renderings(run, model, setup, tmpdir, rng, d, variations):
                 raise RuntimeError("harness: unexpected format-1 rendering")
             check_file(run, model, setup, tmpdir, "".join(lines), "file%d:plain" % fmt, raw=d, fmt=fmt)
             for how in variations:
-                check_file(run, model, setup, tmpdir, decorate(rng, lines, how), "file%d:%s" % (fmt, how), raw=d, fmt=fmt)
+                check_file(run, model, setup, tmpdir, decorate(rng, lines, how, fmt=fmt), "file%d:%s" % (fmt, how), raw=d, fmt=fmt)
 
 
 def junk_file(rng, model, d):
